@@ -206,6 +206,9 @@ def _time_course_worker(
     except ZeroDivisionError:
         res = Result(Exception())
 
+    # A successful run always starts at t=0, so the placeholder has to as well
+    if len(time_points) > 0 and time_points[0] != 0:
+        time_points = np.insert(np.asarray(time_points, dtype=float), 0, 0.0)
     return res.default(lambda: Simulation.default(model=model, time_points=time_points))
 
 
@@ -242,11 +245,15 @@ def _protocol_worker(
     except ZeroDivisionError:
         res = Result(Exception())
 
-    time_points = np.linspace(
-        0,
-        protocol.index[-1].total_seconds(),
-        len(protocol) * time_points_per_step,
-    )
+    # Same time points as a successful run: the start and `time_points_per_step`
+    # points per protocol step
+    t_start = 0.0
+    points = [t_start]
+    for t_end in protocol.index:
+        t_end = t_end.total_seconds()  # noqa: PLW2901
+        points.extend(np.linspace(t_start, t_end, time_points_per_step + 1)[1:])
+        t_start = t_end
+    time_points = np.array(points, dtype=float)
     return res.default(lambda: Simulation.default(model=model, time_points=time_points))
 
 
@@ -283,6 +290,13 @@ def _protocol_time_course_worker(
     except ZeroDivisionError:
         res = Result(Exception())
 
+    # Same time points as a successful run: the start, the protocol steps and the
+    # requested time points inside the protocol
+    steps = np.asarray(protocol.index.total_seconds(), dtype=float)
+    requested = np.asarray(time_points, dtype=float)
+    time_points = np.unique(
+        np.concatenate(([0.0], steps, requested[requested <= steps[-1]]))
+    )
     return res.default(lambda: Simulation.default(model=model, time_points=time_points))
 
 
